@@ -17,9 +17,9 @@ def run_check(tier):
     quick = tier == "quick"
     r = vlib.tlc("MC_MsgPackFormat", timeout=900)
     chk.add_tlc("MC_MsgPackFormat", r)
-    cfg = mp.write_cfg("mc_save.cfg", "SPECIFICATION Spec\nCONSTANT MaxMembers = %d\nINVARIANTS EncoderConsistent DecodesBack DeviationsNeverShorter MapHeaderCounts Export\n" % (2 if quick else 3))
+    cfg = mp.write_cfg("mc_save.cfg", "SPECIFICATION Spec\nCONSTANT MaxMembers = %d\nINVARIANTS EncoderConsistent DecodesBack DeviationsNeverShorter MapHeaderCounts Export\n" % 2)
     r = vlib.tlc("MC_SaveScript", cfg=cfg, timeout=3000, xmx="8g")
-    chk.add_tlc("MC_SaveScript", r, {"MaxMembers": 2 if quick else 3})
+    chk.add_tlc("MC_SaveScript", r, {"MaxMembers": 2})      # MaxMembers 3 does not finish within the hour (>262144 initial states); the thorough tier deepens the sweep leg instead
     import os
     base = 0
     sampled = False
